@@ -135,7 +135,7 @@ example : (⟨[.jwsEs256], [(7, ⟨.jwsEs256, 0, .valid, 3⟩), (8, ⟨.jwsEs256
 
 /-! ## Revocation is final -/
 
-/-- A write transaction (any revoke / rotate / retain actions, any times) keeps a revoked key
+/-- A write transaction (any revoke / rotate actions, any times) keeps a revoked key
 revoked — also when `invalidate` trimmed it from the entry: the plugin re-adds it from the
 loaded object. -/
 theorem txn_keeps_revoked (s : Srv) (hs : KeysNodup s.map) (k : Nat) (hr : Revoked s.map k)
@@ -164,6 +164,27 @@ theorem txn_keeps_revoked (s : Srv) (hs : KeysNodup s.map) (k : Nat) (hr : Revok
       obtain ⟨r', hp, hr', _⟩ := pickOpt_revoked_right (x := lookup (preMap a trim mi) k)
         entryRepl_spec hye hyr
       exact ⟨r', by rw [hm', hp], hr'⟩
+
+/-- A modify that names a present key in `KeyActionRevoke` and succeeds leaves it `Revoked` in the
+stored entry (whatever else the modify rotates or asserts). -/
+theorem revoke_takes_effect (s : Srv) (hs : KeysNodup s.map) (k : Nat) (r : KRec)
+    (hk : lookup s.map k = some r) (a : Action) (f : Fresh) (ks : List Nat)
+    (ha : a.revoke = some ks) (hmem : k ∈ ks) (hf : NotFresh f k) (now cid trim : Nat) (m' : KMap)
+    (hm : modifyEntry s.loaded s.classes s.map a now cid trim f = some m') : Revoked m' k := by
+  unfold modifyEntry Srv.loaded at hm
+  cases hp : pluginObj (loadObj s.map) s.classes a now cid f with
+  | none => rw [hp] at hm; cases hm
+  | some ko =>
+    rw [hp] at hm
+    simp only [Option.some.injEq] at hm
+    subst hm
+    obtain ⟨r', hr', hrev⟩ := plugin_revokes s.map hs s.classes a now cid f ko hp k hf ks ha hmem r hk
+    have hl : lookup (entryMerge (some (trimMap trim s.map)) ko.toMap) k =
+        pickOpt entryRepl (lookup (trimMap trim s.map) k) (lookup ko.toMap k) :=
+      lookup_coreMerge entryRepl _ _ (keysNodup_toMap ko) k
+    obtain ⟨r2, hp2, hr2, _⟩ := pickOpt_revoked_right (x := lookup (trimMap trim s.map) k)
+      entryRepl_spec hr' hrev
+    exact ⟨r2, by rw [hl, hp2], hr2⟩
 
 /-- A write transaction never brings back an absent key id (key generation is fresh). -/
 theorem txn_keeps_absent (s : Srv) (hs : KeysNodup s.map) (k : Nat) (hn : lookup s.map k = none)
@@ -286,7 +307,7 @@ example : Revoked [(7, ⟨.jwsEs256, 0, .valid, 3⟩), (9, (⟨.jwsEs256, 5, .re
 
 /-- A key that is present and not revoked stays so — hence its tokens stay acceptable — through
 any history in which nobody revokes it: rotations at any times (also several in the same
-second), revocations of *other* keys, retain, restarts, trims, replication with partners that
+second), revocations of *other* keys, restarts, trims, replication with partners that
 do not have it revoked. -/
 theorem rotation_keeps_unrevoked_verifiable (s : Srv) (hs : KeysNodup s.map) (u : Usage)
     (k : Nat) (hu : Usable s.map u k) (ops : List Op) (hops : ∀ op ∈ ops, OpKeeps u k op) :
@@ -329,9 +350,7 @@ theorem rotation_keeps_unrevoked_verifiable (s : Srv) (hs : KeysNodup s.map) (u 
               · rw [hri] at h1; cases h1
               · rw [hri] at h1; cases h1; exact absurd h2 hni
               · rw [hri] at h1; cases h1
-                rcases h2 with h2 | ⟨_, h2⟩
-                · exact ⟨ri, h2, hui, hni⟩
-                · exact ⟨_, h2, hui, by simp⟩
+                exact ⟨ri, h2, hui, hni⟩
             obtain ⟨r1, hr1, hu1, hn1⟩ := hpre
             cases hpk : pickOpt entryRepl (lookup (preMap a trim mi) k) y with
             | none => rw [hr1, hy'] at hpk; simp [pickOpt] at hpk
@@ -380,5 +399,89 @@ theorem rotation_keeps_unrevoked_verifiable (s : Srv) (hs : KeysNodup s.map) (u 
 
 example : Usable [(7, ⟨.jwsEs256, 0, .valid, 3⟩), (9, (⟨.jwsEs256, 5, .revoked, 4⟩ : KRec))] .jwsEs256 7 :=
   ⟨_, rfl, rfl, by simp⟩
+
+/-! ## Propagation between replicas -/
+
+/-- The attribute is offered exactly when the consumer lacks the change that *stamped* it:
+the consumer's knowledge of the stamp's origin server is older than the stamp. After a merge the
+stamp is the greater of the two cids (`merge_state`), whichever side the content came from. -/
+theorem offered_iff (sup c : Node) :
+    offered sup c = true ↔
+      c.seenOf (cidOrigin sup.srv.attrCid) < cidTs sup.srv.attrCid ∧
+      cidTs sup.srv.attrCid ≤ sup.seenOf (cidOrigin sup.srv.attrCid) := by
+  unfold offered attrWithin
+  by_cases h : c.seenOf (cidOrigin sup.srv.attrCid) < sup.seenOf (cidOrigin sup.srv.attrCid)
+  · simp only [h, if_true, Bool.and_eq_true, decide_eq_true_eq]
+    constructor
+    · rintro ⟨h1, h2⟩; exact ⟨h2, h1⟩
+    · rintro ⟨h1, h2⟩; exact ⟨h2, h1⟩
+  · simp only [h, if_false]
+    constructor
+    · intro hh; cases hh
+    · rintro ⟨h1, h2⟩; omega
+
+/-- The strongest true propagation statement: when the supplier offers the attribute, a key it
+has revoked is revoked or (past the trim window) absent on the consumer afterwards. -/
+theorem revocation_propagates_when_offered (c sup : Node) (hc : KeysNodup c.srv.map)
+    (hs : KeysNodup sup.srv.map) (trim k : Nat) (hoff : offered sup c = true)
+    (hr : Revoked sup.srv.map k) : Dead (c.pull sup sup.srv.map trim).srv.map k := by
+  unfold Node.pull
+  simp only [hoff, if_true]
+  exact (replIn_revoked_absorbing c.srv { sup.srv with map := sup.srv.map } hc hs trim k (Or.inr hr)).2
+
+/-- …and when it does not, the consumer's entry is untouched. -/
+theorem not_offered_unchanged (c sup : Node) (supMap : KMap) (trim : Nat)
+    (h : offered sup c = false) : (c.pull sup supMap trim).srv = c.srv := by
+  unfold Node.pull
+  simp [h]
+
+/-- A revocation that did arrive is final on the consumer too: after an offered pull from a
+partner that has the key revoked, no later history (partners on which the key is dead) makes a
+token of that key acceptable. -/
+theorem propagated_revocation_is_final (c sup : Node) (hc : KeysNodup c.srv.map)
+    (hs : KeysNodup sup.srv.map) (trim k : Nat) (hoff : offered sup c = true)
+    (hr : Revoked sup.srv.map k) (ops : List Op) (hops : ∀ op ∈ ops, OpDead k op) (u : Usage) :
+    ((c.pull sup sup.srv.map trim).srv.run ops).accepts u k = false := by
+  have hd := revocation_propagates_when_offered c sup hc hs trim k hoff hr
+  have hn : KeysNodup (c.pull sup sup.srv.map trim).srv.map := by
+    unfold Node.pull
+    simp only [hoff, if_true]
+    exact (replIn_revoked_absorbing c.srv { sup.srv with map := sup.srv.map } hc hs trim k (Or.inr hr)).1
+  exact (revoked_never_verifies _ hn k hd ops hops).2.2 u
+
+/-- The full reading of "…including after the key set is replicated": in every reachable state of
+two replicas, when `b` pulls from `a` and `a` has the key revoked, `b` has it revoked or absent. -/
+def revocation_propagates_full : Prop :=
+  ∀ (classes : List Usage) (m : KMap) (cid : Nat) (ops : List NetOp) (trim k : Nat),
+    Revoked (netRun (netInit classes m cid) ops).1.srv.map k →
+    Dead ((netRun (netInit classes m cid) ops).2.pull (netRun (netInit classes m cid) ops).1
+      (netRun (netInit classes m cid) ops).1.srv.map trim).srv.map k
+
+/-- It is false of the code (replayed on the real servers, class
+`lost-revocation:merged-attr-keeps-later-cid`): `a` revokes key 11 (cid of `a`); `b`, not having
+pulled, rotates later (cid of `b`); `a` pulls from `b` — the merged attribute on `a` holds the
+revocation but is stamped with `b`'s later cid; `b` pulls from `a` — the attribute is not offered
+(`b` has its own change), so `b` keeps key 11 `Valid`. -/
+theorem revocation_propagates_full_false : ¬ revocation_propagates_full := by
+  intro h
+  have hw := h [.jwsEs256] [(11, ⟨.jwsEs256, 0, .valid, 5⟩)] 5
+    [ .txnA [({ revoke := some [11] }, fun _ _ => 12)] 10 41 0,
+      .txnB [({ rotate := some 11 }, fun _ _ => 13)] 11 46 0,
+      .pullA 0 ] 0 11 ⟨⟨.jwsEs256, 0, .revoked, 41⟩, by decide, rfl⟩
+  have hl : lookup ((netRun (netInit [.jwsEs256] [(11, ⟨.jwsEs256, 0, .valid, 5⟩)] 5)
+      [ .txnA [({ revoke := some [11] }, fun _ _ => 12)] 10 41 0,
+        .txnB [({ rotate := some 11 }, fun _ _ => 13)] 11 46 0,
+        .pullA 0 ]).2.pull
+      (netRun (netInit [.jwsEs256] [(11, ⟨.jwsEs256, 0, .valid, 5⟩)] 5)
+      [ .txnA [({ revoke := some [11] }, fun _ _ => 12)] 10 41 0,
+        .txnB [({ rotate := some 11 }, fun _ _ => 13)] 11 46 0,
+        .pullA 0 ]).1
+      (netRun (netInit [.jwsEs256] [(11, ⟨.jwsEs256, 0, .valid, 5⟩)] 5)
+      [ .txnA [({ revoke := some [11] }, fun _ _ => 12)] 10 41 0,
+        .txnB [({ rotate := some 11 }, fun _ _ => 13)] 11 46 0,
+        .pullA 0 ]).1.srv.map 0).srv.map 11 = some ⟨.jwsEs256, 0, .valid, 5⟩ := by decide
+  rcases hw with h1 | ⟨r, h1, h2⟩
+  · rw [hl] at h1; cases h1
+  · rw [hl] at h1; cases h1; cases h2
 
 end Kanidm.KeyObject
